@@ -1,7 +1,7 @@
 (** C03: nothing but KeyValError leaves the model of [Keyvalues.parse] when every indexing site is guarded the way
     the configuration says; and each foreign exit needs its own guard to be missing. *)
 From Coq Require Import List NArith Bool Lia.
-From SV Require Import Text.Str Text.Prog Text.Tokenizer Text.TokenizerProofs Text.KvErrModel.
+From SV Require Import Text.Str Text.Prog Text.ProgProofs Text.Tokenizer Text.TokenizerProofs Text.KvErrModel.
 Import ListNotations.
 Open Scope N_scope.
 
@@ -160,4 +160,13 @@ Proof.
     pose proof (tokens_total T (kv_tok_opts ae) Ho (S (length text)) (S (length text)) 1 false text (PeanoNat.Nat.lt_succ_diag_r _)) as Hall.
     rewrite Forall_forall in Hall. exact (Hall _ Hin eq_refl).
   - intros s. unfold kv_parse_text. fold tr. destruct tr as [ts f]. apply no_foreign. exact Hs.
+Qed.
+
+(** The outcome of [Keyvalues.parse] (ok, or which KeyValError, with the tokenizer error and its line if that is what
+    ended the stream) is the same for every chunking of the text. *)
+Theorem kv_parse_any_chunking T cfg ko ae flags defaults cs :
+  kv_parse_chunks T cfg ko ae flags defaults cs = kv_parse_text T cfg ko ae flags defaults (concat cs).
+Proof.
+  unfold kv_parse_chunks, kv_parse_text.
+  now rewrite (tokens_chunk_independent T (kv_tok_opts ae) _ _ 1%N false (concat cs) (chk_of_chunks cs) (R_of_chunks cs)).
 Qed.
